@@ -25,13 +25,17 @@ def plan(tier, seed):
     specs = [{"name": "fold-%d" % b, "kind": "fold", "b": b, "n": n, "timeout": 900} for b in range(nb)]
     specs += [{"name": "arith-%d" % b, "kind": "arith", "b": b, "n": n // 2, "timeout": 900} for b in range(nb)]
     specs.append({"name": "ll", "kind": "ll", "n": 30 if tier == "quick" else 300, "timeout": 900})
+    # the repository's own tests as workload, with the ambient monitors of vf.ambient installed
+    specs.append({"name": "ambient-tests", "kind": "ambient-tests", "files": ['test_Spectrum.py', 'test_fs_from_data.py'], "timeout": 2400, "cpus": 4})
     return specs
 
 
 def required(tier):
-    return {"fold-data": 50, "fold-mask": 50, "fold-total": 50, "fold-mirror-invariant": 50, "fold-idempotent": 50,
+    r = {"fold-data": 50, "fold-mask": 50, "fold-total": 50, "fold-mirror-invariant": 50, "fold-idempotent": 50,
             "misid-convex": 50, "mixed-folding-refused": 50, "binop-attrs": 200, "iop-attrs": 100, "slice-attrs": 50,
             "ll-keeps-attrs": 10}
+    r.update({'ambient-fold': 20, 'ambient-fold-mask': 20})
+    return r
 
 
 def _shape(rng):
@@ -77,6 +81,9 @@ def eq_unmasked(got, ref_data, ref_mask):
 
 
 def run(spec, rec):
+    if spec.get("kind") == "ambient-tests":
+        from vf import ambient
+        return ambient.run_tests_batch(spec, rec, 'C09')
     import dadi
     from dadi import Numerics, Spectrum, Inference
     seed = spec["seed"]
